@@ -1459,6 +1459,11 @@ func (sa *Application) tryReservedAllocate(headRoom *resources.Resource, nodeIte
 				continue
 			}
 		}
+		// a reserved node that has been drained must not be used, same as in the normal allocation cycle.
+		// Asks that require the node are exempt: they are allowed on an unschedulable node.
+		if ask.GetRequiredNode() == "" && !reserve.node.IsSchedulable() {
+			continue
+		}
 		// check allocation possibility
 		// we don't care about predicate error messages here
 		result, _ := sa.tryNode(reserve.node, ask) //nolint:errcheck
